@@ -297,7 +297,6 @@ struct Pending {
     impl_out: String,
     what: &'static str,
 }
-use serde_json::Value as _V;
 
 /// evaluate the C15 laws on the implementation for one case; returns (law, message, sequence)
 fn oracles(rep: &mut Report, c: &Case, rng: &mut Rng) -> Vec<(String, Vec<usize>)> {
@@ -535,12 +534,8 @@ fn run_inner(rep: &mut Report) {
     // layer; the laws of C15 say nothing about these beyond "error, never a partial result")
     let n_mal = rep.budget(1500, 10);
     let mut mal: Vec<(String, String, Value)> = Vec::new();
-    // (format versions >= 80 are left out: a corrupted block count there makes `read_blocks`
-    // allocate that many blocks - DESIGN section 7 item 12, a C14 matter - and the harness
-    // process would be killed)
-    let synth: Vec<usize> = (0..cases.len())
-        .filter(|&i| !cases[i].fns.is_empty() && cases[i].gcno.len() < 3000 && cases[i].notes.version < 80)
-        .collect();
+    let synth: Vec<usize> =
+        (0..cases.len()).filter(|&i| !cases[i].fns.is_empty() && cases[i].gcno.len() < 3000).collect();
     for _ in 0..n_mal {
         if synth.is_empty() {
             break;
